@@ -46,6 +46,8 @@ pub fn c08(args: &[String]) {
         {"ty":"N1","id":"p","script":[{"op":"get","ty":"N2","id":"q"},{"op":"read","id":"p","ext":"x"}]},
         {"ty":"N2","id":"q","script":[{"op":"get","ty":"N1","id":"p"},{"op":"read","id":"q","ext":"x"}]},
         {"ty":"N3","id":"s","script":[{"op":"get","ty":"N3","id":"s"},{"op":"read","id":"s","ext":"x"}]},
+        {"ty":"N4","id":"unused","script":[]},
+        {"ty":"N1","id":"pack","script":[{"op":"loadn","id":"n","ext":"x","prefix":"m"}]},
     ]));
     let src = MemSource::new(true);
     src.st.lock().unwrap().trace_reads = false;
@@ -62,6 +64,17 @@ pub fn c08(args: &[String]) {
         let _ = cache.load::<Node<1>>("p");
     }
     let _ = cache.load::<Node<0>>("d");
+    if mode == "burst" {
+        // a manifest that names 2 assets, then 3000: the reloader thread first-loads them all in one pass
+        src.put("n", "x", b"v2");
+        for i in 0..3000 {
+            src.put(&format!("m{i}"), "x", b"v1");
+        }
+        let _ = cache.load::<Node<1>>("pack");
+        src.put("n", "x", b"v3000");
+        src.send(&[OwnedDirEntry::File("n".into(), "x".into())]);
+        std::thread::sleep(std::time::Duration::from_millis(50));
+    }
     let progress = Arc::new(AtomicU64::new(0));
     let stop = Arc::new(AtomicBool::new(false));
     let done = Arc::new(AtomicBool::new(false));
@@ -256,6 +269,7 @@ pub fn c15(args: &[String]) {
         src.put("a", "x", b"v1");
         let before = reloader_threads().len();
         let mut alive_seen = 0usize;
+        let mut sender_dropped_ticks: Option<u64> = None;
         macro_rules! scenario {
             ($cache:expr, $send:expr) => {{
                 let cache = $cache;
@@ -277,7 +291,10 @@ pub fn c15(args: &[String]) {
                 if shape == "sender_dropped" && kind == "mem" {
                     trace::emit(json!({"ev":"DropSender","th":"main"}));
                     src.drop_sender();
-                    std::thread::sleep(std::time::Duration::from_millis(20));
+                    std::thread::sleep(std::time::Duration::from_millis(100));
+                    let t0 = total_ticks(&reloader_threads());
+                    std::thread::sleep(std::time::Duration::from_millis(600));
+                    sender_dropped_ticks = Some(total_ticks(&reloader_threads()) - t0);
                     cache.hot_reload();
                 }
                 if shape == "events_queued" {
@@ -315,9 +332,13 @@ pub fn c15(args: &[String]) {
         let burn = total_ticks(&t1000).saturating_sub(c0);
         results.push(json!({"round":round,"shape":shape,"threads_before":before,"threads_300ms":extra300.len(),
             "threads_1s":t1000.len(),"states_1s": t1000.iter().map(|x| x.2.to_string()).collect::<Vec<_>>(),
-            "cpu_ticks_after_drop":burn,"idle_ticks":idle_ticks,"threads_while_alive":alive_seen}));
+            "cpu_ticks_after_drop":burn,"idle_ticks":idle_ticks,"threads_while_alive":alive_seen,
+            "ticks_after_sender_dropped":sender_dropped_ticks,"hook_events":trace::len()}));
         if kind == "mem" {
-            all.extend(life_lines(trace::take()));
+            let mut ll = life_lines(trace::take());
+            // a spinning loop floods the trace: keep its head, the measurements above tell the rest
+            ll.truncate(4000);
+            all.extend(ll);
         } else {
             trace::take();
         }
